@@ -152,12 +152,12 @@ def profile():
             'QXmppTrustMessageKeyOwner': 'qko',
             'QXmppPromise<void>': 'qpromise',
             'QXmppTask<void>': 'qtask', 'QXmppTask<QXmpp::TrustLevel>': 'qtask', 'QXmppTask<QXmpp::TrustSecurityPolicy>': 'qtask',
-            'QXmppTask<QHash<bool,%s>>' % KS: 'qtask',
+            'QXmppTask<QHash<bool,%s>>' % KS: 'qtask', 'QXmppTask<QHash<QString,%s>>' % KS: 'qtask',
             'QXmpp::TrustLevel': 'int', 'TrustLevel': 'int', 'QXmpp::TrustSecurityPolicy': 'int', 'TrustSecurityPolicy': 'int',
-            KS: 'KeySet', 'QHash<bool,%s>' % KS: 'PostponedResult',
+            KS: 'KeySet', 'QHash<bool,%s>' % KS: 'PostponedResult', 'QHash<QString,%s>' % KS: 'ModifiedKeys',
             'QList<QXmppTrustMessageKeyOwner>': 'KoList', 'QList<QByteArray>': 'KeyList', 'QList<QString>': 'OwnerList',
         },
-        class_types={A, 'QXmppAtmTrustStorage', 'KeySet', 'PostponedResult', 'KoList', 'KeyList', 'OwnerList'},
+        class_types={A, 'QXmppAtmTrustStorage', 'KeySet', 'PostponedResult', 'ModifiedKeys', 'KoList', 'KeyList', 'OwnerList'},
         calls={
             # ---- the message and its trust message element: opaque values, getters are functions of the value (model.h)
             'qmsg::trustMessageElement/0': ('fn', 'qmsg_trustMessageElement'),
@@ -184,6 +184,12 @@ def profile():
             'KeySet::uniqueKeys/0': ('fnret', 'KeySet_uniqueKeys', 'OwnerList'),
             'KoList::append/1': ('fn', 'KoList_append'),
             'PostponedResult::value/1': ('fnret', 'PostponedResult_value', 'KeySet'),
+            # QHash<QString, QMultiHash<QString, QByteArray>>: the "modified keys" answer of the storage-level setTrustLevel (encryption -> keys)
+            'ModifiedKeys::value/1': ('fnret', 'ModifiedKeys_value', 'KeySet'),
+            'ModifiedKeys::isEmpty/0': ('fn', 'ModifiedKeys_isEmpty'),
+            'KeySet::contains/2': ('fn', 'KeySet_contains'),
+            # signal of QXmppTrustManager: a synchronous notification with no effect on the manager or the storage (ASSUMED)
+            A + '::trustLevelsChanged/1': ('fn', 'sig_trustLevelsChanged'),
             'rangefor:KoList': None, 'rangefor:KeyList': None,      # filled below
             # ---- promise / task (QXmppPromise, QXmppTask: property C13; here: ids, an event log, registration)
             'ctor:qpromise()': ('fn', 'qpromise_new'),
@@ -197,6 +203,10 @@ def profile():
             A + '::setTrustLevel/4': ('callee', 'TrustManager_setTrustLevel_owners'),
             A + '::securityPolicy/1': ('callee', 'TrustManager_securityPolicy'),
             A + '::trustStorage/0': ('const', 'gh_storage'),
+            # the storage-level operations that QXmppTrustManager's wrappers forward to (same effect, the answer carries the modified keys)
+            'QXmppAtmTrustStorage::setTrustLevel/3': ('callee', 'Storage_setTrustLevel_keys'),
+            'QXmppAtmTrustStorage::setTrustLevel/4': ('callee', 'Storage_setTrustLevel_owners'),
+            'QXmppAtmTrustStorage::trustLevel/3': ('callee', 'Storage_trustLevel'),
             'QXmppAtmTrustStorage::addKeysForPostponedTrustDecisions/3': ('callee', 'Storage_addKeysForPostponedTrustDecisions'),
             'QXmppAtmTrustStorage::removeKeysForPostponedTrustDecisions/1': ('callee', 'Storage_removeAllPostponed'),
             'QXmppAtmTrustStorage::removeKeysForPostponedTrustDecisions/2': ('callee', 'Storage_removePostponedBySenderKeys'),
